@@ -236,3 +236,135 @@ def shoot_witness(model, old, args, final=None):
 
 
 REG["shoot"].witness = shoot_witness
+
+
+# ------------------------------------------------------------------ retis_swap_zero  (C11, C09)
+def valid_pre(st, p, L, M, R, start_cond, tag):
+    """Valid(path, ensemble) as an assumption on an input path (existential witnesses as fresh constants)."""
+    n = pplen(st, p)
+    jm, jx = fresh(tag + ".jm", INT), fresh(tag + ".jx", INT)
+    start = _cls(op(st, p, 0), L, R, "?")
+    end = _cls(op(st, p, n - 1), L, R, None)
+    parts = [
+        n >= 2, z3.Or(*[start == S(s) for s in start_cond]), z3.Or(end == S("L"), end == S("R")),
+        forall_range(1, n - 1, lambda j: z3.And(L <= op(st, p, j), op(st, p, j) <= R), pattern=lambda j: ppat(st, p, j)),
+    ]
+    if set(start_cond) != {"L", "R"}:
+        parts.append(z3.And(0 <= jm, jm < n, 0 <= jx, jx < n, op(st, p, jm) < M, M <= op(st, p, jx)))
+    if "L" not in start_cond:
+        parts.append(z3.And(start != S("L"), end != S("L")))
+    return z3.And(*parts)
+
+
+def _swap_make(lm1, wf):
+    def make(ex, st):
+        sc0 = ("L", "R") if lm1 else ("R",)
+        e0 = mk_ens(st, sc0, None, "e0", mc_move="sh")
+        e1 = mk_ens(st, ("L",), None, "e1", mc_move="wf" if wf else "sh")
+        if wf:
+            e1["tis_set"]["interface_cap"] = fresh("cap", REAL)
+        e1["rgen"] = RGen("e1.rgen")
+        p0, p1 = mk_path(st, "old0", 3), mk_path(st, "old1", 3)
+        st.assume(p0.term != p1.term)
+        picked = {-1: {"ens": e0, "traj": p0}, 0: {"ens": e1, "traj": p1}}
+        engines = {-1: [EngineObj("eng0")], 0: [EngineObj("eng1")]}
+        return {"picked": picked, "engines": engines}
+    return make
+
+
+def _swap_req(c):
+    pk = c.a("picked")
+    e0, e1 = pk[-1]["ens"], pk[0]["ens"]
+    p0, p1 = pk[-1]["traj"], pk[0]["traj"]
+    a0, a1, a2 = e0["interfaces"]
+    b0, b1, b2 = e1["interfaces"]
+    out = [
+        ("interfaces0_ordered", z3.And(a0 <= a1, a1 <= a2)), ("interfaces1_ordered", z3.And(b0 <= b1, b1 <= b2)),
+        ("lambda0_shared", z3.And(a2 == b0, b0 == b1)),
+        ("old_paths_have_interior_points", z3.And(pplen(c.st, p0) >= 3, pplen(c.st, p1) >= 3)),
+        ("ensembles_share_one_tis_set", e0["tis_set"]["maxlength"] == e1["tis_set"]["maxlength"]),
+        ("maxlength_ge_3", e0["tis_set"]["maxlength"] >= 3),
+        ("old0_valid", valid_pre(c.st, p0, a0, a1, a2, e0["start_cond"], "v0")),
+        ("old1_valid", valid_pre(c.st, p1, b0, b1, b2, e1["start_cond"], "v1")),
+        ("old0_within_maxlen", pplen(c.st, p0) <= fld(c.st, "Path.maxlen", p0.term)),
+        ("old1_within_maxlen", pplen(c.st, p1) <= fld(c.st, "Path.maxlen", p1.term)),
+    ]
+    if set(e0["start_cond"]) != {"L", "R"}:
+        out.append(("plain_zero_minus_interfaces", a1 == a2))  # initiate_ensembles: [-inf, lambda0, lambda0]
+    if "interface_cap" in e1["tis_set"]:
+        out.append(("cap_above_lambda0", e1["tis_set"]["interface_cap"] >= b0))
+    return out
+
+
+def _swap_inv1(ctx):
+    q = ctx.v("path0")
+    t = ctx.v("path_tmp")
+    n = pplen(ctx.pre, t)
+    return [
+        ("len", pplen(ctx.st, q) == ctx.it),
+        ("frames", forall_range(0, ctx.it, lambda j: ppat(ctx.st, q, j) == ppat(ctx.pre, t, n - 1 - j), pattern=lambda j: ppat(ctx.st, q, j))),
+        ("only_q_pp", z3.And(
+            ctx.st.heap["Path.pp"] == z3.Store(ctx.pre.heap["Path.pp"], q.term, z3.Select(ctx.st.heap["Path.pp"], q.term)),
+            ctx.st.heap["Path.pp#len"] == z3.Store(ctx.pre.heap["Path.pp#len"], q.term, ctx.it))),
+    ]
+
+
+def _gid(st, r):
+    return z3.Select(st.heap["System.gid"], r)
+
+
+def _swap_post(ctx):
+    pk = ctx.a("picked")
+    e0, e1 = pk[-1]["ens"], pk[0]["ens"]
+    p0, p1 = pk[-1]["traj"], pk[0]["traj"]
+    a0, a1, a2 = e0["interfaces"]
+    b0, b1, b2 = e1["interfaces"]
+    acc, paths, status = ctx.result
+    accv = B(acc)
+    st_t = unwrap(status, "str")
+    n0, n1 = pplen(ctx.old, p0), pplen(ctx.old, p1)
+    out = [
+        ("accept_iff_status_ACC", accv == (st_t == S("ACC"))),
+        ("old_frames_untouched", unchanged_below(ctx, sys_fields(), ctx.old.alloc)),
+        ("old_paths_untouched", unchanged_below(ctx, ["Path.pp", "Path.pp#len"] + PATH_SCALARS, ctx.old.alloc)),
+    ]
+    props = _calls(ctx, "propagate")
+    if set(e0["start_cond"]) == {"L", "R"}:
+        ended_left = op(ctx.old, p0, n0 - 1) <= z3.If(z3.And(a0 <= a1, a0 <= a2), a0, z3.If(a1 <= a2, a1, a2))
+        out.append(("lambda_minus_one_left_ending_path_rejected_without_propagation",
+                    z3.Implies(ended_left, z3.And(z3.Not(accv), st_t == S("0-L"), z3.BoolVal(len(props) == 0)))))
+        if len(props) == 0:
+            out.append(("early_reject_returns_the_old_paths", z3.And(paths[0].term == p0.term, paths[1].term == p1.term)))
+    if len(paths) == 2 and len(props) == 2:
+        q0, q1 = paths
+        m0, m1 = pplen(ctx.st, q0), pplen(ctx.st, q1)
+        maxlength = e0["tis_set"]["maxlength"]
+        J = [
+            ("new_minus_path_ends_with_first_two_frames_of_old_plus_path", z3.And(
+                m0 >= 2, _gid(ctx.st, ppat(ctx.st, q0, m0 - 2)) == _gid(ctx.old, ppat(ctx.old, p1, 0)),
+                op(ctx.st, q0, m0 - 2) == op(ctx.old, p1, 0),
+                _gid(ctx.st, ppat(ctx.st, q0, m0 - 1)) == _gid(ctx.old, ppat(ctx.old, p1, 1)),
+                op(ctx.st, q0, m0 - 1) == op(ctx.old, p1, 1))),
+            ("new_plus_path_starts_with_last_two_frames_of_old_minus_path", z3.And(
+                m1 >= 2, _gid(ctx.st, ppat(ctx.st, q1, 0)) == _gid(ctx.old, ppat(ctx.old, p0, n0 - 2)),
+                op(ctx.st, q1, 0) == op(ctx.old, p0, n0 - 2),
+                _gid(ctx.st, ppat(ctx.st, q1, 1)) == _gid(ctx.old, ppat(ctx.old, p0, n0 - 1)),
+                op(ctx.st, q1, 1) == op(ctx.old, p0, n0 - 1))),
+            ("new_paths_are_new_objects", z3.And(q0.term >= ctx.old.alloc, q1.term >= ctx.old.alloc)),
+        ]
+        for nm, t in J:
+            out.append((nm, z3.Implies(accv, t)))
+        for nm, t in valid_in_ensemble(ctx.st, q0, a0, a1, a2, e0["start_cond"], maxlength):
+            out.append(("ACC_minus_path_" + nm, z3.Implies(accv, t)))
+        for nm, t in valid_in_ensemble(ctx.st, q1, b0, b1, b2, e1["start_cond"], maxlength):
+            out.append(("ACC_plus_path_" + nm, z3.Implies(accv, t)))
+    return out
+
+
+reg(Contract(
+    "retis_swap_zero", src=(TIS_PY, "retis_swap_zero"),
+    cases=[Case("plain", _swap_make(False, False)), Case("lambda_minus_one", _swap_make(True, False)), Case("wf_in_plus", _swap_make(False, True))],
+    requires=_swap_req, ensures=[("swap", _swap_post)],
+    canaries=[("never_accepts", lambda c: z3.Not(B(c.result[0])))],
+    loops={1: LoopSpec(_swap_inv1, modifies=["Path.pp", "Path.pp#len"])},
+))
